@@ -159,6 +159,55 @@ def build(cfg, values=None):
             K2 = p2.calc_kA(silent=True).todict()
             for k in sorted(set(K) | set(K2)):
                 obs.append(('kA-mach-route[%d,%d]' % k, K.get(k, 0), K2.get(k, 0)))
+        elif variant in ('bay-kA', 'bay-cA'):
+            # a stiffened-panel bay whose (single) skin panel covers the whole domain: its aerodynamic matrices are those of the
+            # equivalent stand-alone Panel with the same coefficients
+            from . import c13
+            bcfg = {'m': m, 'n': n, 'stiffeners': [], 'cuts': 0}
+            bay, comps = c13.make_bay(ctx, bcfg)
+            bay.flow = flow
+            for c_ in 'uvw':
+                for e in ('1t', '1r', '2t', '2r'):
+                    for d_ in 'xy':
+                        setattr(bay, c_ + e + d_, getattr(p, c_ + e + d_))
+                        for sk in bay.panels:
+                            setattr(sk, c_ + e + d_, getattr(p, c_ + e + d_))
+            p.a, p.b = bay.a, bay.b
+            if model == 'cpanel':
+                bay.r = p.r
+            beta_, gamma_, mu_ = ctx.V('beta'), (ctx.V('gamma') if (model == 'cpanel' and flow == 'x') else None), ctx.V('aeromu')
+            bay.beta, bay.gamma, bay.aeromu = beta_, gamma_, mu_
+            p.beta, p.gamma = beta_, gamma_
+            if variant == 'bay-kA':
+                K1 = bay.calc_kA(silent=True).todict()
+                K2 = p.calc_kA(silent=True).todict()
+                for k in sorted(set(K1) | set(K2)):
+                    obs.append(('bay-kA-vs-panel[%d,%d]' % k, K1.get(k, 0), K2.get(k, 0)))
+            else:
+                bay.calc_cA(silent=True)
+                p.calc_cA(mu_, silent=True)
+                K1, K2 = bay.cA.todict(), p.cA.todict()
+                for k in sorted(set(K1) | set(K2)):
+                    a_, b_ = K1.get(k, 0), K2.get(k, 0)
+                    ar, ai = (a_.re, a_.im) if isinstance(a_, CSym) else (a_, 0)
+                    br, bi = (b_.re, b_.im) if isinstance(b_, CSym) else (b_, 0)
+                    obs.append(('bay-cA-vs-panel-imag[%d,%d]' % k, ai, bi))
+                    obs.append(('bay-cA-vs-panel-real[%d,%d]' % k, ar, br))
+        elif variant == 'cA-default':
+            # calc_cA() without an argument (as Panel.freq calls it) uses the panel's own coefficient: the aeromu attribute on the
+            # explicit route
+            mu_ = ctx.V('aeromu')
+            p.beta, p.gamma, p.aeromu = ctx.V('beta'), None, mu_
+            p.calc_cA(silent=True)
+            K1 = p.cA.todict()
+            p.calc_cA(mu_, silent=True)
+            K2 = p.cA.todict()
+            for k in sorted(set(K1) | set(K2)):
+                a_, b_ = K1.get(k, 0), K2.get(k, 0)
+                ar, ai = (a_.re, a_.im) if isinstance(a_, CSym) else (a_, 0)
+                br, bi = (b_.re, b_.im) if isinstance(b_, CSym) else (b_, 0)
+                obs.append(('cA-default-vs-explicit-imag[%d,%d]' % k, ai, bi))
+                obs.append(('cA-default-vs-explicit-real[%d,%d]' % k, ar, br))
         elif variant == 'exchange':
             # flow along y on (a,b,flags) == flow along x on the axis-exchanged panel
             p.beta = ctx.V('beta')
@@ -194,6 +243,33 @@ def build(cfg, values=None):
     return obs, assumptions, info
 
 
+def real_exception(cfg):
+    """the same call on the compiled build with floats: does it raise?"""
+    from compmech.panel import Panel
+    from compmech.stiffpanelbay import StiffPanelBay
+    lp = (142.5e9, 8.7e9, 0.28, 5.1e9, 5.1e9, 5.1e9)
+    try:
+        if cfg['variant'] == 'cA-default':
+            p = Panel(a=1., b=0.5, stack=[0, 90, 0], plyt=1e-3, laminaprop=lp, m=4, n=4, mu=1600.)
+            if cfg['model'] == 'cpanel':
+                p.model, p.r = 'cpanel_clt_donnell_bardell', 3.
+            p.beta, p.aeromu = 1e4, 0.1
+            p.calc_cA(silent=True)
+        elif cfg['variant'] in ('bay-kA', 'bay-cA'):
+            bay = StiffPanelBay()
+            bay.a, bay.b, bay.m, bay.n, bay.stack, bay.plyt, bay.laminaprop, bay.mu = 1., 0.5, 4, 4, [0, 90, 0], 1e-3, lp, 1600.
+            if cfg['model'] == 'cpanel':
+                bay.model, bay.r = 'cpanel_clt_donnell_bardell', 3.
+            bay.add_panel(0, 0.5)
+            bay.beta, bay.aeromu = 1e4, 0.1
+            (bay.calc_kA if cfg['variant'] == 'bay-kA' else bay.calc_cA)(silent=True)
+        else:
+            return None
+    except Exception as e:
+        return '%s: %s' % (type(e).__name__, e)
+    return None
+
+
 def configs(tier, seed):
     out = []
     quick = tier == 'quick'
@@ -209,6 +285,10 @@ def configs(tier, seed):
         if model != 'cpanel':
             out.append({'model': model, 'm': 3, 'n': 2, 'variant': 'exchange', 'flow': 'y', 'group': 'axis-exchange:%s' % model})
     out.append({'model': 'cpanel', 'm': 2, 'n': 2, 'variant': 'kA-gamma-only', 'flow': 'x', 'group': 'kA-gamma-only:cpanel'})
+    for model in ('plate',):
+        out.append({'model': model, 'm': 4, 'n': 1, 'variant': 'bay-kA', 'flow': 'x', 'group': 'bay-kA-explicit-coefficients:%s' % model})
+        out.append({'model': model, 'm': 3, 'n': 1, 'variant': 'bay-cA', 'flow': 'x', 'group': 'bay-cA:%s' % model})
+        out.append({'model': model, 'm': 3, 'n': 1, 'variant': 'cA-default', 'flow': 'x', 'group': 'cA-default-coefficient:%s' % model})
     out[0]['canary'] = True
     out[-2]['canary'] = True
     return out
